@@ -639,3 +639,126 @@ pub fn run_scenario<R: Rt>(sc: &Scenario) -> Vec<Finding> {
     }
     findings
 }
+
+// ------------------------------------------------------------------------------------------
+// minimisation: smaller scenarios of the same shape (the caller re-explores schedules for each)
+
+fn drop_each<T: Clone>(v: &[T]) -> Vec<Vec<T>> {
+    (0..v.len())
+        .map(|i| {
+            let mut w = v.to_vec();
+            w.remove(i);
+            w
+        })
+        .collect()
+}
+
+/// candidate scenarios one step smaller than `sc`
+pub fn shrink_candidates(sc: &Scenario) -> Vec<Scenario> {
+    let mut out = Vec::new();
+    let base_variants = |base: &Log| -> Vec<Log> {
+        drop_each(&base.ops)
+            .into_iter()
+            .map(|ops| Log {
+                fam: base.fam,
+                ctor: base.ctor.clone(),
+                ops,
+            })
+            .collect()
+    };
+    match sc {
+        Scenario::S1 { base, stages, obs } => {
+            for b in base_variants(base) {
+                out.push(Scenario::S1 { base: b, stages: stages.clone(), obs: obs.clone() });
+            }
+            if stages.len() > 1 {
+                for st in drop_each(stages) {
+                    out.push(Scenario::S1 { base: base.clone(), stages: st, obs: obs.clone() });
+                }
+            }
+            for (i, st) in stages.iter().enumerate() {
+                for ops in drop_each(st) {
+                    let mut s2 = stages.clone();
+                    s2[i] = ops;
+                    out.push(Scenario::S1 { base: base.clone(), stages: s2, obs: obs.clone() });
+                }
+            }
+            if obs.len() > 1 {
+                for o in drop_each(obs) {
+                    out.push(Scenario::S1 { base: base.clone(), stages: stages.clone(), obs: o });
+                }
+            }
+        }
+        Scenario::S2 { base, readers, clone_ops, clone_obs } => {
+            for b in base_variants(base) {
+                out.push(Scenario::S2 { base: b, readers: readers.clone(), clone_ops: clone_ops.clone(), clone_obs: clone_obs.clone() });
+            }
+            if readers.len() > 1 {
+                for r in drop_each(readers) {
+                    out.push(Scenario::S2 { base: base.clone(), readers: r, clone_ops: clone_ops.clone(), clone_obs: clone_obs.clone() });
+                }
+            }
+            for (i, r) in readers.iter().enumerate() {
+                if r.len() > 1 {
+                    for o in drop_each(r) {
+                        let mut r2 = readers.clone();
+                        r2[i] = o;
+                        out.push(Scenario::S2 { base: base.clone(), readers: r2, clone_ops: clone_ops.clone(), clone_obs: clone_obs.clone() });
+                    }
+                }
+            }
+            for ops in drop_each(clone_ops) {
+                out.push(Scenario::S2 { base: base.clone(), readers: readers.clone(), clone_ops: ops, clone_obs: clone_obs.clone() });
+            }
+        }
+        Scenario::S3 { base, branches, owner_obs } => {
+            for b in base_variants(base) {
+                out.push(Scenario::S3 { base: b, branches: branches.clone(), owner_obs: owner_obs.clone() });
+            }
+            if branches.len() > 1 {
+                for b in drop_each(branches) {
+                    out.push(Scenario::S3 { base: base.clone(), branches: b, owner_obs: owner_obs.clone() });
+                }
+            }
+            for (i, br) in branches.iter().enumerate() {
+                for ops in drop_each(&br.ops) {
+                    let mut b2 = branches.clone();
+                    b2[i].ops = ops;
+                    out.push(Scenario::S3 { base: base.clone(), branches: b2, owner_obs: owner_obs.clone() });
+                }
+                if br.compose != 0 || br.take_first || br.panics {
+                    let mut b2 = branches.clone();
+                    b2[i].compose = 0;
+                    b2[i].take_first = false;
+                    b2[i].panics = false;
+                    out.push(Scenario::S3 { base: base.clone(), branches: b2, owner_obs: owner_obs.clone() });
+                }
+            }
+        }
+        Scenario::S4 { tasks, workers } => {
+            if tasks.len() > 1 {
+                for t in drop_each(tasks) {
+                    out.push(Scenario::S4 { tasks: t, workers: *workers });
+                }
+            }
+            for (i, t) in tasks.iter().enumerate() {
+                for ops in drop_each(&t.log.ops) {
+                    let mut t2 = tasks.clone();
+                    t2[i].log.ops = ops;
+                    out.push(Scenario::S4 { tasks: t2, workers: *workers });
+                }
+                for ops in drop_each(&t.more_ops) {
+                    let mut t2 = tasks.clone();
+                    t2[i].more_ops = ops;
+                    out.push(Scenario::S4 { tasks: t2, workers: *workers });
+                }
+                if t.awaits > 1 {
+                    let mut t2 = tasks.clone();
+                    t2[i].awaits -= 1;
+                    out.push(Scenario::S4 { tasks: t2, workers: *workers });
+                }
+            }
+        }
+    }
+    out
+}
